@@ -7,8 +7,12 @@ LEAN_MODULES = ["AwsVerif.Props.C18"]
 COMPONENT = "lht"
 HARNESS = dict(name="lht", flavour="asan")
 P_DIFF_CONCRETE = True   # every P line (results, counts, iteration order, destructor multiset) is constrained by the property
-TRUSTED = ["hand model lean/AwsVerif/Model/Lht.lean (ordered association list; tied by this correspondence run only)",
-           "the hash table under the linked hash table is a map and the node list a sequence (C02 / C09)"]
+TRUSTED = ["hand models lean/AwsVerif/Model/Lht.lean (ordered association list) and Model/LhtImpl.lean (linked_hash_table.c as written "
+           "over the C02 hash-table model and the C09 linked-list model), tied by this correspondence run (P lines; W impl = real "
+           "hash-table slots and both list walks)",
+           "the abstraction hash table + intrusive list -> ordered association list is no longer trusted: c18_impl_refines_lht / "
+           "c18_impl_run prove it from the C02 invariant and C09 well-linkedness; what remains trusted there is that the allocator "
+           "returns unused node memory"]
 ASSUMPTIONS = ["max_items >= 1 (AWS_ASSERT(max_items) in aws_cache_new_*)",
                "hash_fn / equals_fn are consistent and depend on the key's identity only",
                "aws_lru_cache_use_lru_element / get_mru_element are called on LRU caches only"]
@@ -378,7 +382,9 @@ MANIFEST = dict(
           "one the policy names (stated with ghost time stamps: oldest inserted / inserted last before the new one / least "
           "recently used). Tied to /repo by a correspondence run of the compiled model against the real tables and caches "
           "(ASan, freeing destructors), a Python reference-map oracle and small-scope exhaustive histories."),
-    note=("Trusted: Lean kernel; hand-written model Model/Lht.lean (tied by correspondence only); the underlying hash table "
-          "and linked list are abstracted (C02, C09); destructor order inside clear is canonicalised (hash-slot order)."),
+    note=("Trusted: Lean kernel; hand-written models Model/Lht.lean and Model/LhtImpl.lean (tied by correspondence only). The "
+          "abstraction of the hash table + intrusive list is proved (c18_impl_refines_lht, c18_impl_run, c18_impl_order) on top of "
+          "the C02 / C09 developments; destructor order inside clear is canonicalised (hash-slot order); caches' eviction is "
+          "proved on the abstract level only (the implementation-level cache put is driven in the W stream)."),
     technique="Lean 4 invariants over all histories + model/implementation differential run + reference-map oracle",
 )
